@@ -58,10 +58,11 @@ class Kit:
     # -- symbolic strings
     @staticmethod
     def iri_str(tag: str, shape: str = "hash") -> Any:
+        # fully structured atoms: rpartition on '#' or '/' is decidable whatever order the code tries them in
         if shape == "hash":
-            return sstr(Atom(tag + ".ns", nosep=False), "#", Atom(tag + ".local", nosep=True, nonempty=None))
+            return sstr(Atom(tag + ".scheme", nosep=True), "/", Atom(tag + ".path", nosep=True), "#", Atom(tag + ".local", nosep=True, nonempty=None))
         if shape == "slash":
-            return sstr(Atom(tag + ".ns", nosep=False), "/", Atom(tag + ".local", nosep=True))
+            return sstr(Atom(tag + ".scheme", nosep=True), "/", Atom(tag + ".path", nosep=True), "/", Atom(tag + ".local", nosep=True))
         if shape == "nosep":
             return sstr(Atom(tag + ".whole", nosep=True))
         if shape == "opaque":
